@@ -38,8 +38,12 @@ def user(arrival, how, amounts, hold, nested):
 def helpers(kind):
     if kind == 'cap2':
         return [None]
-    return [None, [['INC', 'r', {'a': 1}]], [['D', 1], ['INC', 'r', {'a': 1}], ['INSTANT'], ['TRY', [['DEC', 'r', {'a': 1}]]]],
-            [['INSTANT'], ['RSET', 'r', {'a': 2}]], [['TRY', [['DEC', 'r', {'a': 1}]]], ['D', 1], ['INC', 'r', {'a': 1}]]]
+    return ([None, [['INC', 'r', {'a': 1}]], [['D', 1], ['INC', 'r', {'a': 1}], ['INSTANT'], ['TRY', [['DEC', 'r', {'a': 1}]]]],
+            [['INSTANT'], ['RSET', 'r', {'a': 2}]], [['TRY', [['DEC', 'r', {'a': 1}]]], ['D', 1], ['INC', 'r', {'a': 1}]],
+            # levels set to zero (drained) and back, set above the initial supply, changes by zero
+            [['RSET', 'r', {'a': 0}], ['D', 1], ['RSET', 'r', {'a': 2}]],
+            [['D', 1], ['RSET', 'r', {'a': 0}], ['INC', 'r', {'a': 0}], ['INSTANT'], ['RSET', 'r', {'a': 3}], ['TRY', [['DEC', 'r', {'a': 0}]]]]]
+            + ([[['RSET', 'r', {'b': 0}], ['D', 1], ['RSET', 'r', {'a': 0, 'b': 1}], ['D', 1], ['RSET', 'r', {'a': 2}]]] if kind == 'res21' else []))
 
 
 def program(supply, users, helper):
